@@ -1590,17 +1590,25 @@ func (c *CAManager) SignCertificate(csr *x509.CertificateRequest, spiffeID conne
 		// so they will have a dummy trust domain in the CSR.
 		trustDomain := signingID.Host()
 		if agentID.Host != trustDomain {
-			originalURI := agentID.URI()
-
+			original := *agentID
 			agentID.Host = trustDomain
 
-			// recreate the URIs list
+			// recreate the URIs list. The URI to fix is found by the identity it
+			// parses to, not by its text: a URI with escaped characters or an
+			// explicit partition segment does not print like agentID.URI() and
+			// would otherwise keep the foreign trust domain. Only the host is
+			// replaced so that the spelling of the path (escapes) is preserved.
 			uris := make([]*url.URL, len(csr.URIs))
 			for i, uri := range csr.URIs {
-				if originalURI.String() == uri.String() {
-					uris[i] = agentID.URI()
-				} else {
-					uris[i] = uri
+				uris[i] = uri
+				parsed, err := connect.ParseCertURI(uri)
+				if err != nil {
+					continue
+				}
+				if other, ok := parsed.(*connect.SpiffeIDAgent); ok && *other == original {
+					fixed := *uri
+					fixed.Host = trustDomain
+					uris[i] = &fixed
 				}
 			}
 
